@@ -94,9 +94,10 @@ type stream struct{ ch chan string }
 
 type refServer struct {
 	client    string
-	path      string // Streamable: MCP path; legacy: connect path
-	msgPath   string // legacy: message path announced in the endpoint event
-	sessionID string // prefix of the session ids: every initialize (legacy: every connect) is handed a fresh one
+	path      string          // Streamable: MCP path; legacy: connect path
+	alt       map[string]bool // further paths served like path (composition pass: every path some WithClientPath option named)
+	msgPath   string          // legacy: message path announced in the endpoint event
+	sessionID string          // prefix of the session ids: every initialize (legacy: every connect) is handed a fresh one
 	ts        *httptest.Server
 	baseURL   string
 	gate      *gateListener
@@ -284,7 +285,7 @@ func (s *refServer) pushFrame(msg string) {
 
 func (s *refServer) record(r *http.Request, body []byte) *srvRec {
 	kind, id := classify(s.client, r.Method, body)
-	served := r.URL.Path == s.path
+	served := r.URL.Path == s.path || s.alt[r.URL.Path]
 	if s.client == clLegacy && r.Method == http.MethodPost {
 		served = r.URL.Path == s.msgPath
 	}
